@@ -282,7 +282,8 @@ class ShutScenario(NetScenario):
     def faults(self, st):
         if st.shut_at is None and st.script_pos > 0:
             return [("shutdown", 1)] + ([("shutdown/stall%d/%s" % (j, dt), 1) for j, dt in STALLS] if self.stalls else
-                                        [("shutdown/req%d" % j, 1) for j in (1, 2, 3, 4)] + [("shutdown/withdrawn", 1)])
+                                        [("shutdown/req%d" % j, 1) for j in (1, 2, 3, 4)] + [("shutdown/withdrawn", 1)] +
+                                        [("shutdown/dgram%d/%s" % (j, k), 1) for j in (1, 2, 3) for k in ("creq", "cresp")])
         return []
 
     def apply_fault(self, st, label):
@@ -323,6 +324,18 @@ class ShutScenario(NetScenario):
                 st.retries.append(st.v.ctx.request(m, handle_blockwise=False).response)
             except error.Error:
                 pass       # refusing on the spot is fine as well
+        if "/dgram" in label:
+            # a datagram of the peer becomes readable while the shutdown is under way (after its j-th loop iteration): a new
+            # confirmable request, or a confirmable response to nothing.  Either it is still handled like any other, or it is
+            # dropped with the socket - it does not reach managers that are already gone
+            _, j, k = label.split("/")
+            for i in range(int(j[5:])):
+                if w.loop._ready:
+                    w.loop._run_once()
+            if k == "creq":
+                w.inject(PEER, V, rc.encode((rc.CON, 1, 0x7d01, b"\x7d", [(11, b"late-request")], b"")))
+            else:
+                w.inject(PEER, V, rc.encode((rc.CON, 69, 0x7d02, b"\x7d\x7e", [], b"late-response")))
         if "/stall" in label:
             _, j, dt = label.split("/")
             for i in range(int(j[5:])):
